@@ -223,7 +223,7 @@ def corpus():
 
 
 def impl(c):
-    if c["t"] == "o2":
+    if c.get("t") == "o2":
         return _o2_impl(c)
     W = World()
     steps = []
@@ -322,7 +322,7 @@ def _idt(i):
 
 
 def model_lines(c, obs):
-    lines = ["\t".join(["rps", "reset", common.enc_list(ISSUERS if c["t"] != "o2" else [ISS]), enc_str(CID)])]
+    lines = ["\t".join(["rps", "reset", common.enc_list(ISSUERS if c.get("t") != "o2" else [ISS]), enc_str(CID)])]
     for st in obs["steps"]:
         m = st["model"]
         if m is None or st.get("composite"):
@@ -364,7 +364,7 @@ def _parse_dump(fields):
 
 
 def compare(c, obs, outs):
-    if c["t"] == "o2":
+    if c.get("t") == "o2":
         for i, (st, o) in enumerate(zip(obs["steps"], outs[1:])):
             ok = o.split("\t")[0] == "ok"
             if ok != (st["r"] == "ok"):
@@ -392,7 +392,7 @@ def compare(c, obs, outs):
 
 def oracle(c, obs):
     v = []
-    if c["t"] == "o2":
+    if c.get("t") == "o2":
         for i, st in enumerate(obs["steps"]):
             if st["model"][0] == "begin":
                 continue
